@@ -42,6 +42,12 @@ type Config struct {
 	// StatusCalls: LeaseStatus calls answered "healthy" at once; later ones stay in flight until the
 	// monitor cancels them (keeps the horizon finite: every health-check tick re-arms the next one)
 	StatusCalls int
+	// SecondLease: "" = one lease. "free-first" / "shared-first": a second lease B (own order, own
+	// reservation) whose single manifest lists a free hostname and lease A's www hostname, in that or
+	// the mirrored order. B's manifest is published only while A is deployed and not yet closed, so
+	// the hostname service refuses B's reservation; A's close is published only after B's request
+	// has been answered. With Close, B closes too.
+	SecondLease string
 	// Shards: budget lists; every shard is explored by its own worker process
 	Shards []Shard
 }
@@ -61,6 +67,7 @@ const (
 	hostWWW   = "WWW.Example.COM"
 	hostAPI   = "Api.Example.com"
 	hostNew   = "new.example.com"
+	hostB     = "Free-B.example.com" // asked for by the second lease only
 	groupName = "g"
 	svcName   = "web"
 )
@@ -71,6 +78,7 @@ var errInjected = errors.New("injected cluster failure")
 // first block are written by the calling goroutine (in its first, eagerly executed block: it is
 // spawned by the deployment manager for exactly this call); released is owned by the environment.
 type call struct {
+	second  bool // a call for the second lease (kept in inst.callsB, only judged for overlap)
 	kind    string
 	seq     int // position in start order (= spawn order of the manager's operation goroutines)
 	version int // Deploy: version of the manifest group passed in
@@ -89,7 +97,12 @@ type call struct {
 	released               bool
 }
 
-func (c *call) id() string { return fmt.Sprintf("%s#%d", c.kind, c.seq) }
+func (c *call) id() string {
+	if c.second {
+		return fmt.Sprintf("B.%s#%d", c.kind, c.seq)
+	}
+	return fmt.Sprintf("%s#%d", c.kind, c.seq)
+}
 
 type probe struct {
 	begun, ended bool
@@ -115,6 +128,7 @@ type inst struct {
 	ctx      context.Context
 	cancel   context.CancelFunc
 	lease    mtypes.LeaseID
+	leaseB   mtypes.LeaseID // second lease (Config.SecondLease)
 	provider sdk.AccAddress
 
 	// written by system goroutines inside the scripted client
@@ -124,7 +138,12 @@ type inst struct {
 	nStatus    int
 	nBroadcast int
 
+	callsB  []*call // cluster calls for the second lease (none on the unchanged tree: its hostnames are refused)
+	activeB []*call
+
 	// environment-owned
+	publishedB      bool // the second lease's manifest was published
+	closedB         bool
 	published       int // manifests published so far
 	closed          bool
 	shutdown        bool
@@ -147,6 +166,7 @@ func newInst(cfg *Config) *inst {
 	owner := sdk.AccAddress([]byte("tenant-address-00001"))
 	h.provider = sdk.AccAddress([]byte("provider-address-001"))
 	h.lease = mtypes.LeaseID{Owner: owner.String(), DSeq: 7, GSeq: 1, OSeq: 1, Provider: h.provider.String()}
+	h.leaseB = mtypes.LeaseID{Owner: owner.String(), DSeq: 8, GSeq: 1, OSeq: 1, Provider: h.provider.String()}
 	return h
 }
 
@@ -169,7 +189,7 @@ func nodeUnits() atypes.ResourceUnits {
 	}
 }
 
-var allHosts = []string{hostWWW, hostAPI, hostNew}
+var allHosts = []string{hostWWW, hostAPI, hostNew, hostB}
 
 func hostsOf(v int) []string {
 	switch v {
@@ -291,6 +311,18 @@ func (h *inst) begin(kind string, lid mtypes.LeaseID, version int) *call {
 	h.lock()
 	defer h.unlock()
 	c := &call{kind: kind, seq: len(h.calls), version: version, release: make(chan string)}
+	if h.cfg.SecondLease != "" && lid.Equals(h.leaseB) {
+		// second lease: recorded and released like any call, judged only for overlap
+		c.second, c.seq = true, len(h.callsB)
+		for _, a := range h.activeB {
+			c.activeAtStart = append(c.activeAtStart, a.id())
+		}
+		c.resAtStart, c.hostAtStart = 1, true
+		vs.Note("B", kind, c.seq, strings.Join(c.activeAtStart, ","))
+		h.callsB = append(h.callsB, c)
+		h.activeB = append(h.activeB, c)
+		return c
+	}
 	if !lid.Equals(h.lease) {
 		vs.Fatalf("c14: %s for a foreign lease %v", kind, lid)
 	}
@@ -341,6 +373,17 @@ func (h *inst) reservedHeld() bool {
 func (h *inst) end(c *call, res string) {
 	h.lock()
 	defer h.unlock()
+	if c.second {
+		for i, a := range h.activeB {
+			if a == c {
+				h.activeB = append(append([]*call{}, h.activeB[:i]...), h.activeB[i+1:]...)
+				break
+			}
+		}
+		c.resAtEnd, c.hostAtEnd = 1, true
+		c.result = res
+		return
+	}
 	for i, a := range h.active {
 		if a == c {
 			h.active = append(append([]*call{}, h.active[:i]...), h.active[i+1:]...)
@@ -407,6 +450,12 @@ func (h *inst) body() {
 		vs.Fatalf("c14: Reserve: %v", err)
 		return
 	}
+	if h.cfg.SecondLease != "" {
+		if _, err := svc.Reserve(h.leaseB.OrderID(), h.groupSpec()); err != nil {
+			vs.Fatalf("c14: Reserve (second lease): %v", err)
+			return
+		}
+	}
 	// The inventory service re-arms its poll timer after every completed check. The periodic poll is
 	// not part of C14's alphabet: let the first tick happen now; the check it starts stays in flight
 	// (scripted Inventory, call 2), so the timer is never armed again and does not multiply the
@@ -437,11 +486,38 @@ func (h *inst) pendingCalls() []*call {
 		}
 	}
 	sort.SliceStable(p, func(i, j int) bool { return p[i].seq < p[j].seq })
-	return p
+	var pb []*call
+	for _, c := range h.callsB {
+		if !c.released {
+			pb = append(pb, c)
+		}
+	}
+	sort.SliceStable(pb, func(i, j int) bool { return pb[i].seq < pb[j].seq })
+	return append(p, pb...)
+}
+
+// second lease: when may its events be published
+func (h *inst) aDeployed() bool { return len(h.calls) > 0 }
+
+// bAnswered: the second lease's hostname request has been answered - its manager ended on the
+// refusal and the service released its inventory reservation (1 left: lease A's), or it went on to
+// a cluster call.
+func (h *inst) bAnswered() bool {
+	return len(h.callsB) > 0 || cluster.VerifC14ReservationCount(h.svc) <= 1
+}
+
+func (h *inst) bEventsLeft() bool {
+	if h.cfg.SecondLease == "" {
+		return false
+	}
+	if !h.publishedB {
+		return !h.closed // it can still be published (now, or once A is deployed)
+	}
+	return h.cfg.Close && !h.closedB
 }
 
 func (h *inst) eventsLeft() bool {
-	return h.published < h.cfg.Manifests || (h.cfg.Close && !h.closed)
+	return h.published < h.cfg.Manifests || (h.cfg.Close && !h.closed) || h.bEventsLeft()
 }
 
 func (h *inst) hasMenu() bool {
@@ -464,8 +540,16 @@ func (h *inst) menu() []action {
 	if h.published < h.cfg.Manifests {
 		m = append(m, action{fmt.Sprintf("manifest:v%d", h.published+1), h.publishManifest})
 	}
-	if h.cfg.Close && !h.closed {
+	if h.cfg.Close && !h.closed && (h.cfg.SecondLease == "" || !h.publishedB || h.bAnswered()) {
 		m = append(m, action{"lease-closed", h.publishClosed})
+	}
+	if h.cfg.SecondLease != "" {
+		if !h.publishedB && h.aDeployed() && !h.closed {
+			m = append(m, action{"B.manifest", h.publishManifestB})
+		}
+		if h.publishedB && h.cfg.Close && !h.closedB {
+			m = append(m, action{"B.lease-closed", h.publishClosedB})
+		}
 	}
 	if h.cfg.EarlyShutdown || (!h.eventsLeft() && len(pend) == 0) {
 		m = append(m, action{"shutdown", h.requestShutdown})
@@ -496,6 +580,33 @@ func (h *inst) publishManifest() {
 	}
 	if err := h.bus.Publish(ev); err != nil {
 		vs.Fatalf("c14: publish manifest: %v", err)
+	}
+}
+
+func (h *inst) publishManifestB() {
+	h.publishedB = true
+	hosts := []string{hostB, hostWWW}
+	if h.cfg.SecondLease == "shared-first" {
+		hosts = []string{hostWWW, hostB}
+	}
+	g := mgroup(1)
+	g.Services[0].Image = "image:b"
+	g.Services[0].Expose[0].Hosts = hosts
+	m := manifest.Manifest{g}
+	ev := event.ManifestReceived{
+		LeaseID:  h.leaseB,
+		Manifest: &m,
+		Group:    &dtypes.Group{GroupID: h.leaseB.GroupID(), GroupSpec: h.groupSpec()},
+	}
+	if err := h.bus.Publish(ev); err != nil {
+		vs.Fatalf("c14: publish manifest (second lease): %v", err)
+	}
+}
+
+func (h *inst) publishClosedB() {
+	h.closedB = true
+	if err := h.bus.Publish(mtypes.NewEventLeaseClosed(h.leaseB, sdk.NewInt64Coin("uakt", 1))); err != nil {
+		vs.Fatalf("c14: publish lease-closed (second lease): %v", err)
 	}
 }
 
@@ -554,6 +665,15 @@ func (h *inst) environment() {
 
 // ---------------------------------------------------------------------------------------------
 // Oracle, from the statement of C14.
+
+// reservationsLegitimatelyLeft: the second lease's reservation stays when nothing ever told the
+// service about that lease (neither its manifest nor its close was published).
+func (h *inst) reservationsLegitimatelyLeft() int {
+	if h.cfg.SecondLease != "" && !h.publishedB && !h.closedB {
+		return 1
+	}
+	return 0
+}
 
 func (h *inst) deploys() (all []*call, failed bool) {
 	for _, c := range h.calls {
@@ -621,12 +741,19 @@ func (h *inst) obligations() {
 			if h.pr.ended {
 				if h.pr.statusErr != "" {
 					due("probe-failed:status", "Status() failed at the settled point: %s", h.pr.statusErr)
-				} else if h.pr.pending+h.pr.active != 0 {
-					due("reservation-not-released-after-close", "the lease closed and teardown completed, but the inventory still holds %d pending + %d active reservation(s) (managers: %d)", h.pr.pending, h.pr.active, h.pr.leases)
+				} else if want := h.reservationsLegitimatelyLeft(); h.pr.pending+h.pr.active != want {
+					due("reservation-not-released-after-close", "the lease closed and teardown completed, but the inventory holds %d pending + %d active reservation(s), expected %d (managers: %d)", h.pr.pending, h.pr.active, want, h.pr.leases)
 				}
 				if h.pr.hostErr != "" {
 					sig := "hostnames-not-released-after-close"
+					if inList(h.pr.stuck, hostB) {
+						// only the second lease ever asked for it, and its request was refused
+						sig += ":left-by-refused-request"
+					}
 					for _, x := range h.pr.stuck {
+						if strings.Contains(sig, ":left-by") {
+							break
+						}
 						if !inList(hostsOf(h.published), x) {
 							sig += ":dropped-by-later-manifest"
 							break
@@ -664,7 +791,7 @@ func (h *inst) probe() {
 			h.pr.statusErr = st.Inventory.Error.Error()
 		}
 	}
-	other := dtypes.DeploymentID{Owner: h.lease.Owner, DSeq: h.lease.DSeq + 1}
+	other := dtypes.DeploymentID{Owner: h.lease.Owner, DSeq: h.lease.DSeq + 2} // a third deployment
 	if err := vs.Recv(h.svc.HostnameService().CanReserveHostnames(allHosts, other)); err != nil {
 		h.pr.hostErr = err.Error()
 		h.pr.stuck = cluster.VerifC14HostnamesInUse(h.svc)
@@ -719,6 +846,11 @@ func (h *inst) check(r *vs.Result) (string, []string) {
 				other = kTeardown
 			}
 			bad("overlap:"+c.kind+"-during-"+other, "%s started while %s had not returned", c.id(), strings.Join(c.activeAtStart, ","))
+		}
+	}
+	for _, c := range h.callsB {
+		if len(c.activeAtStart) > 0 {
+			bad("overlap:second-lease", "%s started while %s had not returned", c.id(), strings.Join(c.activeAtStart, ","))
 		}
 	}
 	// (2) never starts a deploy after teardown was requested
@@ -814,11 +946,22 @@ func (h *inst) check(r *vs.Result) (string, []string) {
 		if c.tdAccepted > 0 {
 			fmt.Fprintf(&b, ":td%d", c.tdAccepted)
 		}
-		if c.resAtStart != 1 || !c.hostAtStart || (c.result != "" && (c.resAtEnd != 1 || !c.hostAtEnd)) {
+		if c.resAtStart < 1 || !c.hostAtStart || (c.result != "" && (c.resAtEnd < 1 || !c.hostAtEnd)) {
 			fmt.Fprintf(&b, ":res%d/%d:host%v/%v", c.resAtStart, c.resAtEnd, c.hostAtStart, c.hostAtEnd)
 		}
 	}
-	fmt.Fprintf(&b, "]|settled=%v", h.settled)
+	b.WriteString("]")
+	if len(h.callsB) > 0 {
+		b.WriteString("|callsB[")
+		for i, c := range h.callsB {
+			if i > 0 {
+				b.WriteString(" ")
+			}
+			fmt.Fprintf(&b, "%s:%s", c.kind[:1], c.result)
+		}
+		b.WriteString("]")
+	}
+	fmt.Fprintf(&b, "|settled=%v", h.settled)
 	if h.settled {
 		fmt.Fprintf(&b, " tdAccepted=%d", h.tdAcceptedAtEnd)
 	}
